@@ -304,7 +304,7 @@ def ob_snap_arith(M, ctx):
     ctx.assume(b2 >= 0)
     ctx.assume(b2 < M)
     s2 = Snap(m2, b2, M)
-    if ctx.ge(total, m2 * M + b2):
+    if bool(total >= m2 * M + b2):  # (exact: this decides what is computed, it is not a check)
         dd = s - s2
         ctx.check("sub.keeps-distance", ctx.eq(dd.measure * M + dd.beat, total - (m2 * M + b2)))
         ctx.check("order", bool(s2 < s) or bool(s2 == s))
